@@ -100,6 +100,45 @@ func runRuntime(cfg *Cfg) {
 	if cfg.Tier == "thorough" {
 		nskip = 400000
 	}
+	skipCase := func(bs []byte, i int) {
+		var n int
+		var err error
+		hx := "skip x" + hex.EncodeToString(bs)
+		out.Watch("C15", "skip-hang", "runtime.Skip", hx, 60*time.Second)
+		p, msg := guard(func() { n, err = runtime.Skip(bs) })
+		out.Unwatch()
+		out.Case("skip"+hex.EncodeToString(bs), len(bs) > 0)
+		if p {
+			out.Violate("C15", "skip-panic", "Skip panicked: "+msg, hx)
+			out.Line("C15", hx, "panic")
+			return
+		}
+		if err == nil && n <= 0 {
+			out.Violate("C15", "skip-progress", fmt.Sprintf("Skip returned n=%d without error", n), hx)
+		}
+		_, _, want := protowire.ConsumeField(bs)
+		if want > 0 {
+			out.Count("skip_wellformed")
+			if err != nil || n != want {
+				out.Violate("C15", "skip-len", fmt.Sprintf("Skip=(%d,%v) protowire.ConsumeField=%d", n, err, want), hx)
+			}
+			if i < 6000 {
+				out.Line("C15", "cfield x"+hex.EncodeToString(bs), fmt.Sprintf("ok %d", want))
+			}
+		} else {
+			out.Count("skip_malformed")
+			if i < 6000 {
+				out.Line("C15", "cfield x"+hex.EncodeToString(bs), "err")
+			}
+		}
+		if i < 12000 {
+			if err != nil {
+				out.Line("C15", hx, "err")
+			} else {
+				out.Line("C15", hx, fmt.Sprintf("ok %d", n))
+			}
+		}
+	}
 	for i := 0; i < nskip; i++ {
 		var bs []byte
 		mode := r.Intn(6)
@@ -141,45 +180,43 @@ func runRuntime(cfg *Cfg) {
 				}
 			}
 		}
-		var n int
-		var err error
-		hx := "skip x" + hex.EncodeToString(bs)
-		out.Watch("C15", "skip-hang", "runtime.Skip", hx, 60*time.Second)
-		p, msg := guard(func() { n, err = runtime.Skip(bs) })
-		out.Unwatch()
-		out.Case("skip"+hex.EncodeToString(bs), len(bs) > 0)
-		if p {
-			out.Violate("C15", "skip-panic", "Skip panicked: "+msg, hx)
-			out.Line("C15", hx, "panic")
-			continue
-		}
-		if err == nil && n <= 0 {
-			out.Violate("C15", "skip-progress", fmt.Sprintf("Skip returned n=%d without error", n), hx)
-		}
-		_, _, want := protowire.ConsumeField(bs)
-		if want > 0 {
-			out.Count("skip_wellformed")
-			if err != nil || n != want {
-				out.Violate("C15", "skip-len", fmt.Sprintf("Skip=(%d,%v) protowire.ConsumeField=%d", n, err, want), hx)
-			}
-			if i < 6000 {
-				out.Line("C15", "cfield x"+hex.EncodeToString(bs), fmt.Sprintf("ok %d", want))
-			}
-		} else {
-			out.Count("skip_malformed")
-			if i < 6000 {
-				out.Line("C15", "cfield x"+hex.EncodeToString(bs), "err")
-			}
-		}
-		if i < 12000 {
-			if err != nil {
-				out.Line("C15", hx, "err")
-			} else {
-				out.Line("C15", hx, fmt.Sprintf("ok %d", n))
-			}
-		}
+		skipCase(bs, i)
 		if i < 3 {
-			out.Sample(hx)
+			out.Sample("skip x" + hex.EncodeToString(bs))
+		}
+	}
+	// nesting depth of groups around protowire's limit (it accepts 10001 levels and refuses 10002): a record that
+	// protowire accepts must be skipped with exactly its length, whatever its depth; same / alternating / distinct
+	// field numbers per level, an inner record at the bottom, two bytes of the next record behind it
+	for _, d := range []int{1, 2, 3, 4, 7, 100, 9999, 10000, 10001, 10002, 10003, 30000} {
+		for shape := 0; shape < 3; shape++ {
+			var bs []byte
+			num := func(l int) protowire.Number {
+				switch shape {
+				case 0:
+					return 5
+				case 1:
+					return protowire.Number(5 + l%2)
+				}
+				return protowire.Number(1 + l%1000)
+			}
+			for l := 0; l < d; l++ {
+				bs = protowire.AppendTag(bs, num(l), protowire.StartGroupType)
+			}
+			if shape > 0 {
+				bs = protowire.AppendTag(bs, 2, protowire.VarintType)
+				bs = protowire.AppendVarint(bs, 300)
+			}
+			for l := d - 1; l >= 0; l-- {
+				bs = protowire.AppendTag(bs, num(l), protowire.EndGroupType)
+			}
+			bs = append(bs, 0x08, 0x01)
+			out.Count("skip_deep_group_cases")
+			i := 0
+			if d > 10003 {
+				i = 1 << 30 // direct oracle only
+			}
+			skipCase(bs, i)
 		}
 	}
 	_ = bits.Len64
